@@ -112,11 +112,22 @@ def handleText (j : Json) : R Json := do
   | none => .ok (obj [("model", Json.null)])
   | some t => .ok (obj [("model", ofList (ofList Json.str) t)])
 
+/-- `{"op":"select", "table":[[cell,…],…], "sel":[[name, column index],…]}` (cells are opaque strings) -/
+def handleSelect (j : Json) : R Json := do
+  let t ← asList (asList asStr) (← fld j "table")
+  let sel ← asList (fun x => match x with
+    | .arr #[n, i] => do pure ((← asStr n), (← asNat i))
+    | _ => throw "sel: expected [name, index]") (← fld j "sel")
+  let enc (r : List (String × List (Option String))) : Json :=
+    Json.arr (r.map (fun p => Json.arr #[Json.str p.1, ofList (ofOpt Json.str) p.2])).toArray
+  .ok (obj [("model", enc (selectCols t sel)), ("positional", enc (selectColsPositional t sel))])
+
 def handle (j : Json) : R Json := do
   match (← asStr (← fld j "op")) with
   | "fit" => handleFit j
   | "memo" => handleMemo j
   | "text" => handleText j
+  | "select" => handleSelect j
   | o => .error s!"unknown op {o}"
 
 end PyxelModel.C20
